@@ -684,7 +684,11 @@ fn collect_changes(
                     continue;
                 }
 
-                let new_entity = marker_added || visibility == Visibility::Gained;
+                // An entity without a mutation tick has never been sent to this client
+                // (for example, the client was authorized after the entity started replicating).
+                let new_entity = marker_added
+                    || visibility == Visibility::Gained
+                    || ticks.mutation_tick(entity.id()).is_none();
                 if new_entity
                     || updates.changed_entity_added()
                     || removal_buffer.contains_key(&entity.id())
